@@ -24,6 +24,12 @@ A_SUB = [r"angle\.sub\..*", r"angle\.div\..*", r"angle\.divf\..*"]
 A_NEW = [r"angle\.new.*"]
 ARITH = [r"arith\..*"]
 
+G_STEP = [r"geonum\.(dual|undual|negate|differentiate|integrate|increment_blade|decrement_blade|copy_blade|base_angle)",
+          r"angle\.(dual|undual|negate|conjugate|base_angle|grade|is_scalar|is_vector|is_bivector|is_trivector|grade_angle|is_opposite|blade|rem)"]
+
 PROPS = {
     "C03": {"cone": A_ADD + ARITH, "lines": 150000, "oracle_cases": 90000},
+    "C04": {"cone": A_SUB + ARITH, "lines": 150000, "oracle_cases": 90000},
+    "C07": {"cone": G_STEP + A_ADD + A_SUB + [r"geonum\.(mul|div)\.vv", r"geonum\.rotate"] + ARITH, "lines": 150000,
+            "hist": 150, "oracle_cases": 60000},
 }
